@@ -1,4 +1,4 @@
-import Evenio.Proofs.EvLedgerTop
+import Evenio.Proofs.EvLedgerConsTop
 import Evenio.Proofs.EntHistory
 import Evenio.Proofs.Inv.QueueEmpty
 import Evenio.Props.C01Safe
@@ -45,9 +45,27 @@ With `pending w` the serials of the user events in `w.queue` and `D` the serials
   pending and the invariant intact, so nothing a later operation destroys was destroyed by the panicking one.
 * The one exit on which the invariant can break is a MARKER exit (`dropQueued_marker_breaks_ledger`, a kernel-checked
   counterexample); C01 (`Props/C01Safe.lean`) shows that no marker is reachable (`reachSD_noMarker`).
-* Conservation ("none lost") is in the second half of this file. -/
+* **(B) second half / (C) conservation — none lost**: `Conserved a D w` (every serial from `a` up to the next one is
+  pending, in the ledger, or in `D`) together with the registry invariant `TW` is kept by EVERY top-level operation from
+  any world satisfying `TW` (`execOp_conserves`, `step_conserves`, `history_conserves`; per function `flush_conserves`,
+  `deliverOne_conserves`).  **Quiescent corollaries**: `op_destroys_what_it_creates` — whenever an operation has returned
+  or panicked, nothing is queued and the operation's ledger holds exactly the serials the operation allocated, each once;
+  `history_quiescent` — after every history from the empty world the ledger of the history holds every serial ever
+  allocated, each once (`history_destroys_what_it_creates` from any world).  What `TW` says, and why it is needed: see the
+  section below.  On taken events: the model records no set of taken serials because its `take` destroys the value on
+  the spot; "destroyed exactly once OR taken" is therefore the uniform statement "in the ledger exactly once", and the
+  per-delivery theorems of `Props/C11.lean` (`deliverOne_disposition`, `runHandler_drops_iff_taken`) say which of the
+  ledger entries are takes.
+* **(E)** `demo_eval`, `demo_forever`, `demo_conserved`, `demo_panicking_op`: a kernel-evaluated history with a taking
+  handler, a handler that panics with two events still queued, a dead-target send; the theorems instantiated.
+
+Exits: "on every exit" (normal, panic, marker) holds for `runAct`, `runHandler`, `deliverOne` in the no-double-destruction
+half; everything from `dropQueued` / `flushWith` upwards, and all of conservation, is for normal returns and panics.  The
+model's own fuel marker (`panic "model:fuel"`) is a panic for this purpose: the ledger invariant and conservation hold
+after it (the events stay pending: the guard has not run), only the statements "nothing is queued" exclude it. -/
 namespace Evenio
 namespace C11History
+open EvLedger
 
 /-! ## vocabulary -/
 
@@ -333,6 +351,225 @@ theorem dropQueued_marker_breaks_ledger :
   decide +kernel
 
 
+/-! ## (B), second half, and (C): conservation — no event value is lost
+
+`Conserved a D w`: every serial from `a` up to `w.nextESerial` is pending, in the ledger of the current operation, or in
+`D`.  It needs a fact about the REGISTRIES that the no-double-destruction half does not: whoever disposes of a user event
+(`deliverOne`, `dropQueued`) asks the registry entry the event's index selects whether the event has a drop function
+(`needs_drop`); an entry without one — or no entry — and the value is leaked.  `TW w` (`Proofs/EvLedgerConsTop.lean`) is
+the invariant that excludes this: registered user event types have a drop function and the normal kind; the event set of
+every registered handler names live registry slots of the right type (so what `Sender::send` queues is disposable) and is
+covered by the handler's sent-events set (so `remove_event` removes the senders before the registry entry: C14);
+registered handlers are in `by_insert_order`; queued user events are disposable.  The empty world satisfies it and EVERY
+top-level operation keeps it, together with `Conserved`, on normal return and after a panic — from any world, for any
+operation (`execOp_conserves`). -/
+
+/-- every serial from `a` up to the next one is pending, destroyed by the current operation, or in `D` -/
+def Conserved (a : Nat) (D : List Nat) (w : World) : Prop :=
+  ∀ s, a ≤ s → s < w.nextESerial → s ∈ pending w ∨ s ∈ w.edrops ∨ s ∈ D
+
+theorem conserved_iff {a : Nat} {D : List Nat} {w : World} : Conserved a D w ↔ Cov a D w := by
+  unfold Conserved pending
+  constructor
+  · intro h s h1 h2
+    rcases h s h1 h2 with h3 | h3 | h3
+    · exact List.mem_append_right _ (List.mem_append_left _ h3)
+    · exact List.mem_append_right _ (List.mem_append_right _ h3)
+    · exact List.mem_append_left _ h3
+  · intro h s h1 h2
+    rcases List.mem_append.1 (h s h1 h2) with h3 | h3
+    · exact .inr (.inr h3)
+    · rcases List.mem_append.1 h3 with h4 | h4
+      · exact .inl h4
+      · exact .inr (.inl h4)
+
+/-- the registry invariant of conservation holds in the empty world -/
+theorem tw_empty : TW {} := tw_init
+
+/-- nothing has been allocated in the empty world -/
+theorem conserved_init (D : List Nat) : Conserved 1 D {} := fun s h1 h2 => by
+  have : s < 1 := h2
+  omega
+
+/-- from the next serial on, nothing has been allocated: the base case for "what ONE operation allocates" -/
+theorem conserved_base (D : List Nat) (w : World) : Conserved w.nextESerial D w := fun s h1 h2 => by omega
+
+/-- **every top-level operation conserves, from ANY world satisfying `TW`, on normal return and after a panic**: the
+    registry invariant holds again and every serial allocated so far is pending, destroyed, or in `D` -/
+theorem execOp_conserves (op : Op) {a : Nat} {D : List Nat} {w : World} (tw : TW w) (h : Conserved a D w) :
+    OnExit (fun w' => TW w' ∧ Conserved a D w') ((execOp op).run.run w) := by
+  have := (execOp_tq (a := a) (Z := D) op).run w ⟨tw, conserved_iff.1 h⟩
+  generalize (execOp op).run.run w = r at this
+  obtain ⟨(e|x), w'⟩ := r
+  · exact fun hp => ⟨(this hp).1, conserved_iff.2 (this hp).2⟩
+  · exact ⟨this.1, conserved_iff.2 this.2⟩
+
+/-- **a flush conserves** (the registries do not change during a flush) -/
+theorem flush_conserves (fuel : Nat) {a : Nat} {D : List Nat} {w : World} (tw : TW w) (h : Conserved a D w) :
+    OnExit (fun w' => TW w' ∧ Conserved a D w') ((flush fuel).run.run w) := by
+  have := (flush_tq (a := a) (Z := D) fuel).run w ⟨tw, conserved_iff.1 h⟩
+  generalize (flush fuel).run.run w = r at this
+  obtain ⟨(e|x), w'⟩ := r
+  · exact fun hp => ⟨(this hp).1, conserved_iff.2 (this hp).2⟩
+  · exact ⟨this.1, conserved_iff.2 this.2⟩
+
+/-- **one delivery conserves**: if the delivered user event's registry entry has a drop function and the normal kind
+    (`TOK`; nothing is required of an event of a built-in type), its serial is in the ledger when the delivery returns OR
+    panics — by the dead-target drop, a `take`, the drop after the handler loop, or the unwinding guard -/
+theorem deliverOne_conserves (it : QItem) {a : Nat} {D : List Nat} {w : World} (hok : TOK w.gevs w.tevs it)
+    (h : Cov a (ledgerOf it ++ D) w) : OnExit (Cov a D) ((deliverOne it).run.run w) := by
+  have := (deliverOne_cov (a := a) (Z := D) it).run w ⟨hok, h⟩
+  generalize (deliverOne it).run.run w = r at this
+  obtain ⟨(e|x), w'⟩ := r <;> exact this
+
+theorem stepInit_topq {a : Nat} {D : List Nat} {w : World} (tw : TW w) (h : Conserved a D w) :
+    EvLedger.TopQ a (w.edrops ++ D) (stepInit w) := by
+  refine ⟨tw.comps tw.ri rfl rfl rfl rfl rfl, ?_⟩
+  have h0 : Cov a D w := conserved_iff.1 h
+  refine (cover_accounting a).perm h0 ?_
+  show (D ++ (pend w.queue ++ w.edrops)).Perm ((w.edrops ++ D) ++ (pend w.queue ++ []))
+  perm_app
+
+/-- **one protocol step** -/
+theorem step_conserves {a : Nat} {D : List Nat} {w : World} {op : Op} (tw : TW w) (h : Conserved a D w)
+    (hm : NoMarker w op) : TW (step w op).1 ∧ Conserved a (w.edrops ++ D) (step w op).1 := by
+  have := (execOp_tq (a := a) (Z := w.edrops ++ D) op).run (stepInit w) (stepInit_topq tw h)
+  rw [step_fst_eq]
+  unfold NoMarker at hm
+  generalize (execOp op).run.run (stepInit w) = r at this hm
+  obtain ⟨(e|x), w'⟩ := r
+  · exact ⟨(this (hm e rfl)).1, conserved_iff.2 (this (hm e rfl)).2⟩
+  · exact ⟨this.1, conserved_iff.2 this.2⟩
+
+/-- **every history without a marker conserves**: at the end every serial allocated so far (from `a` on) is pending or
+    in the ledger of the history (or was in `w.edrops ++ D` to begin with), and the registry invariant holds -/
+theorem history_conserves {a : Nat} {D : List Nat} {w : World} (ops : List Op) (tw : TW w) (h : Conserved a D w)
+    (hm : NoMarkerHist w ops) :
+    TW (runHist w ops) ∧
+    ∀ s, a ≤ s → s < (runHist w ops).nextESerial →
+      s ∈ pending (runHist w ops) ∨ s ∈ histDrops w ops ++ w.edrops ++ D := by
+  induction ops generalizing w D with
+  | nil =>
+    refine ⟨tw, fun s h1 h2 => ?_⟩
+    rcases h s h1 h2 with h3 | h3 | h3
+    · exact .inl h3
+    · exact .inr (by simp [h3])
+    · exact .inr (by simp [h3])
+  | cons op ops ih =>
+    obtain ⟨tw1, h1⟩ := step_conserves tw h hm.1
+    obtain ⟨tw2, h2⟩ := ih tw1 h1 hm.2
+    refine ⟨tw2, fun s hs1 hs2 => ?_⟩
+    rw [runHist_cons] at hs2 ⊢
+    rcases h2 s hs1 hs2 with h3 | h3
+    · exact .inl h3
+    · refine .inr ?_
+      rw [histDrops_cons]
+      simp only [List.mem_append] at h3 ⊢
+      rcases h3 with (h3 | h3) | h3 | h3
+      · exact .inl (.inl (.inl h3))
+      · exact .inl (.inl (.inr h3))
+      · exact .inl (.inr h3)
+      · exact .inr h3
+
+/-- every world reached from the empty world satisfies the registry invariant of conservation -/
+theorem reachE_tw {w : World} (h : ReachE w) : TW w := by
+  induction h with
+  | init => exact tw_init
+  | step op _ hm ih => exact (step_conserves ih (conserved_base [] _) hm).1
+
+/-! ### (C) the quiescent corollary -/
+
+/-- the operation did not end in the model's own fuel marker -/
+def NoFuel (w : World) (op : Op) : Prop := ((execOp op).run.run (stepInit w)).1 ≠ .error (.panic "model:fuel")
+
+/-- every operation of the history returned, or ended in a panic — a handler's or a documented panic of the library —
+    other than the model's fuel marker -/
+def QuietHist : World → List Op → Prop
+  | _, [] => True
+  | w, op :: ops => NoMarker w op ∧ NoFuel w op ∧ QuietHist (step w op).1 ops
+
+theorem QuietHist.noMarker {w : World} {ops : List Op} (h : QuietHist w ops) : NoMarkerHist w ops := by
+  induction ops generalizing w with
+  | nil => trivial
+  | cons op ops ih => exact ⟨h.1, ih h.2.2⟩
+
+/-- between the operations of such a history nothing is queued -/
+theorem QuietHist.queue_nil {w : World} {ops : List Op} (h : QuietHist w ops) (hq : w.queue = []) :
+    (runHist w ops).queue = [] := by
+  induction ops generalizing w with
+  | nil => exact hq
+  | cons op ops ih => exact ih h.2.2 (step_queue_nil hq h.2.1 h.1)
+
+/-- **(C) one operation destroys everything it creates.**  From ANY world satisfying the registry invariant with an empty
+    queue: when the operation has returned OR panicked, nothing is queued and every event value it created (top-level
+    `send` / `sendto`, every `send` of every handler that ran — including the handlers that panicked and the events still
+    queued when they did) is in the operation's ledger, exactly once: destroyed after its delivery, at a dead target,
+    rejected by a failing `Sender::send`, by the unwinding guard, by `dropQueued`, or — taken — by the handler that took
+    it.  None lost, none twice. -/
+theorem op_destroys_what_it_creates {w : World} {op : Op} (tw : TW w) (hq : w.queue = []) (hm : NoMarker w op)
+    (hf : NoFuel w op) :
+    (step w op).1.queue = [] ∧ (step w op).1.edrops.Nodup ∧
+    (∀ s, w.nextESerial ≤ s → s < (step w op).1.nextESerial → s ∈ (step w op).1.edrops) ∧
+    (∀ s ∈ (step w op).1.edrops, w.nextESerial ≤ s → s < (step w op).1.nextESerial) := by
+  have hq' := step_queue_nil hq hf hm
+  have hc : Conserved w.nextESerial ([] ++ []) (step w op).1 :=
+    (step_conserves (w := { w with edrops := [] }) (op := op) (D := []) (tw.comps tw.ri rfl rfl rfl rfl rfl)
+      (conserved_base [] _) hm).2
+  -- no double destruction: the ledger invariant with `D := every serial allocated before`
+  have hL : LedgerOK [] { w with edrops := [] } := by
+    refine ⟨?_, fun s hs => ?_⟩
+    · show (pend w.queue ++ [] ++ []).Nodup
+      rw [hq]; exact List.nodup_nil
+    · have : s ∈ pend w.queue ++ [] ++ [] := hs
+      rw [hq] at this; cases this
+  have hs := step_ledger (w := { w with edrops := [] }) (op := op) hL hm
+  have e : step { w with edrops := [] } op = step w op := rfl
+  rw [e] at hs
+  refine ⟨hq', hs.edrops_nodup, fun s h1 h2 => ?_, fun s hs' _ => ?_⟩
+  · rcases hc s h1 h2 with h3 | h3 | h3
+    · unfold pending at h3; rw [hq'] at h3; cases h3
+    · exact h3
+    · simp at h3
+  · exact hs.2 s (List.mem_append_left _ (List.mem_append_right _ hs'))
+
+/-- **(C) whole histories from the empty world: every user event value ever created has been destroyed exactly once.**
+    After any history of top-level operations (each returned or panicked): nothing is queued; the ledger of the history has
+    no duplicates, contains only allocated serials, and contains EVERY serial allocated so far.  (A taken event is in the
+    ledger because the handler that took it destroyed it: the model's `take` drops the value at once.) -/
+theorem history_quiescent {ops : List Op} (h : QuietHist {} ops) :
+    (runHist {} ops).queue = [] ∧
+    (histDrops {} ops).Nodup ∧
+    (∀ s ∈ histDrops {} ops, s < (runHist {} ops).nextESerial) ∧
+    (∀ s, 1 ≤ s → s < (runHist {} ops).nextESerial → s ∈ histDrops {} ops) := by
+  have hq := h.queue_nil rfl
+  have h1 := history_ledger ops ledgerOK_init h.noMarker
+  have h2 := (history_conserves ops tw_init (conserved_init []) h.noMarker).2
+  have hp : pending (runHist {} ops) = [] := by unfold pending; rw [hq]; rfl
+  rw [hp] at h1
+  simp only [List.nil_append, List.append_nil] at h1
+  refine ⟨hq, h1.1, h1.2, fun s hs1 hs2 => ?_⟩
+  rcases h2 s hs1 hs2 with h3 | h3
+  · rw [hp] at h3; cases h3
+  · simpa using h3
+
+/-- … and from any world satisfying the invariants with an empty queue: what the history allocates, it destroys —
+    exactly once -/
+theorem history_destroys_what_it_creates {D : List Nat} {w : World} {ops : List Op} (tw : TW w)
+    (hl : LedgerOK D w) (hq : w.queue = []) (h : QuietHist w ops) :
+    (runHist w ops).queue = [] ∧ (histDrops w ops).Nodup ∧
+    ∀ s, w.nextESerial ≤ s → s < (runHist w ops).nextESerial → s ∈ histDrops w ops := by
+  have hq' := h.queue_nil hq
+  have h1 := (history_no_double_drop ops hl h.noMarker).1
+  have h2 := (history_conserves (a := w.nextESerial) (D := []) ops tw (conserved_base [] w) h.noMarker).2
+  refine ⟨hq', (List.nodup_append.1 (List.nodup_append.1 h1).1).1, fun s hs1 hs2 => ?_⟩
+  rcases h2 s hs1 hs2 with h3 | h3
+  · unfold pending at h3; rw [hq'] at h3; cases h3
+  · simp only [List.append_nil, List.mem_append] at h3
+    rcases h3 with h3 | h3
+    · exact h3
+    · have := hl.2 s (List.mem_append_left _ (List.mem_append_right _ h3))
+      omega
+
 /-! ## (E) non-vacuity: a history with a `take`, a panic in the middle of a propagation, a dead target
 
 Closed histories, evaluated by the kernel (`decide +kernel`). -/
@@ -440,6 +677,80 @@ theorem demo_forever (more : List Op) (hm : NoMarkerHist (runHist {} demoOps) mo
   rw [List.append_assoc, ← e]
   exact List.mem_append_right _ hd
 
+/-- executable form of `NoFuel` -/
+def noFuelB (w : World) (op : Op) : Bool :=
+  match ((execOp op).run.run (stepInit w)).1 with
+  | .error (.panic c) => c != "model:fuel"
+  | _ => true
+
+theorem noFuel_of_check {w : World} {op : Op} (h : noFuelB w op = true) : NoFuel w op := by
+  unfold noFuelB at h
+  intro he
+  rw [he] at h
+  simp at h
+
+/-- executable form of `QuietHist` -/
+def quietHistB : World → List Op → Bool
+  | _, [] => true
+  | w, op :: ops =>
+    (match ((execOp op).run.run (stepInit w)).1 with
+      | .ok _ => true
+      | .error (.panic c) => c != "model:fuel"
+      | .error _ => false) && quietHistB (step w op).1 ops
+
+theorem quietHist_of_check {w : World} {ops : List Op} (h : quietHistB w ops = true) : QuietHist w ops := by
+  induction ops generalizing w with
+  | nil => trivial
+  | cons op ops ih =>
+    unfold quietHistB at h
+    rw [Bool.and_eq_true] at h
+    refine ⟨?_, ?_, ih h.2⟩
+    · intro e he
+      have h1 := h.1
+      rw [he] at h1
+      cases e with
+      | panic c => rfl
+      | ub s => cases h1
+      | «assert» s => cases h1
+    · intro he
+      have h1 := h.1
+      rw [he] at h1
+      simp at h1
+
+set_option maxRecDepth 1000000 in
+theorem demo_quiet_check : quietHistB {} demoOps = true := by decide +kernel
+
+theorem demo_quiet : QuietHist {} demoOps := quietHist_of_check demo_quiet_check
+
+/-- **the conservation theorem applied to the demo history** — with a handler that takes, a handler that panics in the
+    middle of a propagation with two events still queued, a dead-target send: every one of the twelve event values created
+    has been destroyed exactly once, nothing is pending -/
+theorem demo_conserved :
+    (runHist {} demoOps).queue = [] ∧ (histDrops {} demoOps).Nodup ∧
+    ∀ s, 1 ≤ s → s < 13 → s ∈ histDrops {} demoOps := by
+  obtain ⟨h1, h2, -, h4⟩ := history_quiescent demo_quiet
+  rw [demo_eval.2.2.2.2.1] at h4
+  exact ⟨h1, h2, h4⟩
+
+/-- … the third operation (the one whose propagation was interrupted by the panic of `p`) on its own: from the world
+    before it, it created the serials `1 … 4` and destroyed exactly these -/
+theorem demo_panicking_op :
+    let w := runHist {} (demoOps.take 2)
+    (step w (.send 0)).1.queue = [] ∧ (step w (.send 0)).1.edrops.Nodup ∧
+    ∀ s, w.nextESerial ≤ s → s < (step w (.send 0)).1.nextESerial → s ∈ (step w (.send 0)).1.edrops := by
+  intro w
+  have hq : QuietHist {} (demoOps.take 2 ++ [.send 0]) := quietHist_of_check (by decide +kernel)
+  have tw : TW w := (history_conserves (a := 1) (D := []) (demoOps.take 2) tw_init (conserved_init [])
+    (quietHist_of_check (w := {}) (ops := demoOps.take 2) (by decide +kernel)).noMarker).1
+  have hw : w.queue = [] := (quietHist_of_check (w := {}) (ops := demoOps.take 2) (by decide +kernel)).queue_nil rfl
+  have hm : NoMarker w (.send 0) := noMarker_of_check (by decide +kernel)
+  have hf : NoFuel w (.send 0) := by
+    unfold NoFuel
+    have : noFuelB w (.send 0) = true := by decide +kernel
+    exact noFuel_of_check this
+  obtain ⟨h1, h2, h3, -⟩ := op_destroys_what_it_creates tw hw hm hf
+  exact ⟨h1, h2, h3⟩
+
 #print axioms execOp_ledger
 #print axioms step_ledger
 #print axioms history_ledger
@@ -457,6 +768,17 @@ theorem demo_forever (more : List Op) (hm : NoMarkerHist (runHist {} demoOps) mo
 #print axioms dropQueued_marker_breaks_ledger
 #print axioms demo_eval
 #print axioms demo_forever
+#print axioms execOp_conserves
+#print axioms flush_conserves
+#print axioms deliverOne_conserves
+#print axioms step_conserves
+#print axioms history_conserves
+#print axioms reachE_tw
+#print axioms op_destroys_what_it_creates
+#print axioms history_quiescent
+#print axioms history_destroys_what_it_creates
+#print axioms demo_conserved
+#print axioms demo_panicking_op
 
 end C11History
 end Evenio
